@@ -43,6 +43,20 @@ func (c *GenCtx) GenListText(t *rapid.T) *Node {
 	if refs := c.refsOf(TyListText); len(refs) > 0 && rapid.IntRange(0, 3).Draw(t, "listRef") != 0 {
 		return Ref(rapid.SampledFrom(refs).Draw(t, "listTextRef"), TyListText)
 	}
+	if rapid.IntRange(0, 3).Draw(t, "listOfTexts") == 0 {
+		// list() over text arguments, also texts that read as numbers and
+		// texts taken from the store: the elements stay texts
+		n := rapid.IntRange(1, 3).Draw(t, "listOfTextsN")
+		args := make([]*Node, n)
+		for i := range args {
+			if rapid.Bool().Draw(t, "numericText") {
+				args[i] = Str(rapid.SampledFrom([]string{"1", "2", "007", "1.5", "12", "0"}).Draw(t, "numericTextLit"))
+			} else {
+				args[i] = Str(c.textLiteral(t))
+			}
+		}
+		return Call("list", args...)
+	}
 	sep := rapid.SampledFrom([]string{",", "b", "-"}).Draw(t, "splitSep")
 	src := Value()
 	if c.NoValue || rapid.IntRange(0, 2).Draw(t, "splitKey") == 0 {
